@@ -109,7 +109,46 @@ fn doctype_moved(w: &World, st: &Step) -> bool {
     }
 }
 
+/// set_attribute / set_attribute_node / set_named_item where the element already carries an attribute with
+/// the same local part but another prefix: the library identifies attributes by local part and replaces it
+fn attr_local_collision(w: &World, st: &Step) -> bool {
+    let collides = |el: Mid, local: &str, prefix: Option<&str>| -> bool {
+        w.model.nodes[el].attrs.iter().any(|a| {
+            let n = &w.model.nodes[*a];
+            local_of(&n.name) == local && n.prefix.as_deref() != prefix
+        })
+    };
+    match &st.op {
+        Op::SetAttribute { el, name, .. } => match w.model.node_slot(*el) {
+            Some(e) => {
+                let (p, l) = match name.split_once(':') {
+                    Some((p, l)) => (Some(p), l),
+                    None => (None, name.as_str()),
+                };
+                collides(e, l, p)
+            }
+            None => false,
+        },
+        Op::SetAttributeNode { el, attr, .. } => match (w.model.node_slot(*el), w.model.node_slot(*attr)) {
+            (Some(e), Some(a)) => {
+                let n = &w.model.nodes[a];
+                n.kind == Kind::Attr && collides(e, local_of(&n.name), n.prefix.as_deref())
+            }
+            _ => false,
+        },
+        Op::MapSetNamedItem { map, attr, .. } => match (w.model.slot(*map), w.model.node_slot(*attr)) {
+            (Some(MSlot::Map(e)), Some(a)) => {
+                let n = &w.model.nodes[a];
+                n.kind == Kind::Attr && collides(*e, local_of(&n.name), n.prefix.as_deref())
+            }
+            _ => false,
+        },
+        _ => false,
+    }
+}
+
 pub const TRIGGERS: &[(&str, Pred)] = &[
+    ("attr_local_collision", attr_local_collision),
     ("factory_unstorable_data", factory_unstorable_data),
     ("doctype_moved", doctype_moved),
 ];
